@@ -142,6 +142,37 @@ Proof.
   exfalso. apply (Hnot c). apply in_rev. apply fs_lookup_in. exact E.
 Qed.
 
+Lemma bytes_eqb_refl a : bytes_eqb a a = true.
+Proof. induction a as [|x a IH]; cbn [bytes_eqb]; [reflexivity|]. rewrite IH, andb_true_r. apply Byte.byte_dec_lb. reflexivity. Qed.
+
+Lemma fs_lookup_some_of_in (l : folder) name c0 : In (name, c0) l -> exists c, fs_lookup l name = Some c.
+Proof.
+  induction l as [|[k v] l IH]; cbn [fs_lookup In]; [intros []|].
+  intros [H|H].
+  - injection H as -> ->. rewrite bytes_eqb_refl. eauto.
+  - destruct (bytes_eqb k name); [eauto|exact (IH H)].
+Qed.
+
+(* a name in the write list ends up holding a content of the write list, whatever the folder held before
+   (an earlier extraction of another revision of the movie, leftovers of any size) *)
+Theorem written_files_hold_written_content fs (ws : list write) name c0 :
+  In (name, c0) ws ->
+  exists c, In (name, c) ws /\ fs_lookup (apply_writes fs ws) name = Some c.
+Proof.
+  intros Hin.
+  destruct (fs_lookup_some_of_in (rev ws) name c0) as [c Hc]; [apply in_rev in Hin; exact Hin|].
+  exists c. split; [apply in_rev; apply fs_lookup_in; exact Hc|].
+  rewrite apply_writes_rev, fs_lookup_app, Hc. reflexivity.
+Qed.
+
+Theorem written_files_independent_of_earlier_content fs fs' (ws : list write) name c0 :
+  In (name, c0) ws -> fs_lookup (apply_writes fs ws) name = fs_lookup (apply_writes fs' ws) name.
+Proof.
+  intros Hin. rewrite !apply_writes_rev, !fs_lookup_app.
+  destruct (fs_lookup_some_of_in (rev ws) name c0) as [c Hc]; [apply in_rev in Hin; exact Hin|].
+  rewrite Hc. reflexivity.
+Qed.
+
 (* ---------- composition with the container theorems (C01) ---------- *)
 Lemma parse_riff_enc0 bo flen cs : in32 flen -> Forall wf_chunk cs ->
   parse_riff (enc_movie bo flen cs) 0 bo = Ok (map view cs).
